@@ -314,6 +314,92 @@ func genInfoModel(repo string) (genFile, error) {
 			}
 		}
 	}
+	// who READS the shared model at run time (F34): the package directories in whose functions `InfoModel[…]` is indexed other than
+	// on the left of an assignment; any other mention of the map inside a function (passed on, ranged over, its address
+	// taken) is listed as a text that names no package
+	readerSet := map[string]bool{}
+	var readers []string
+	for _, dir := range []string{"vflow", "ipfix", "netflow/v9", "netflow/v5", "sflow", "producer", "mirror", "packet", "reader"} {
+		ents, _ := ioutil.ReadDir(filepath.Join(repo, dir))
+		for _, e := range ents {
+			if e.IsDir() || !strings.HasSuffix(e.Name(), ".go") || strings.HasSuffix(e.Name(), "_test.go") {
+				continue
+			}
+			rel := dir + "/" + e.Name()
+			fs2, f2, err := parseFile(repo, rel)
+			if err != nil {
+				readers = append(readers, "!unrecognised: "+rel+": "+err.Error())
+				continue
+			}
+			for _, d := range f2.Decls {
+				fd, ok := d.(*ast.FuncDecl)
+				if !ok || fd.Body == nil {
+					continue
+				}
+				var stack []ast.Node
+				ast.Inspect(fd.Body, func(x ast.Node) bool {
+					if x == nil {
+						stack = stack[:len(stack)-1]
+						return true
+					}
+					stack = append(stack, x)
+					isModel := false
+					switch n := x.(type) {
+					case *ast.Ident:
+						isModel = dir == "ipfix" && n.Name == "InfoModel"
+						if isModel && len(stack) >= 2 {
+							if sel, ok := stack[len(stack)-2].(*ast.SelectorExpr); ok && sel.Sel == n {
+								isModel = false // a field or another package's name
+							}
+						}
+					case *ast.SelectorExpr:
+						isModel = dir != "ipfix" && src(fs2, n) == "ipfix.InfoModel"
+					}
+					if !isModel {
+						return true
+					}
+					var parent, grand ast.Node
+					if len(stack) >= 2 {
+						parent = stack[len(stack)-2]
+					}
+					if len(stack) >= 3 {
+						grand = stack[len(stack)-3]
+					}
+					if ix, ok := parent.(*ast.IndexExpr); ok && ix.X == x.(ast.Expr) {
+						if as, ok := grand.(*ast.AssignStmt); ok {
+							for _, l := range as.Lhs {
+								if l == ast.Expr(ix) {
+									return true // a write: listed in modelWriters
+								}
+							}
+						}
+						if !readerSet[dir] {
+							readerSet[dir] = true
+							readers = append(readers, dir)
+						}
+						return true
+					}
+					if as, ok := parent.(*ast.AssignStmt); ok {
+						for _, l := range as.Lhs {
+							if l == x.(ast.Expr) {
+								return true // the map is replaced: listed in modelWriters
+							}
+						}
+					}
+					readers = append(readers, "!other use in "+rel+" "+fd.Name.Name+": "+src(fs2, parent))
+					return true
+				})
+			}
+		}
+	}
+	b.WriteString("\n/-- every package (directory) whose functions read the shared information model by indexing it; any other use of the map is a text that names no package -/\ndef modelReaders : List String := [")
+	for i, w := range readers {
+		if i > 0 {
+			b.WriteString(", ")
+		}
+		b.WriteString(leanStr(w))
+	}
+	b.WriteString("]\n")
 	b.WriteString("\n/-- every run-time writer of the shared information model: callers of LoadExtElements and assignments to InfoModel (file func: what) -/\ndef modelWriters : List String := [")
 	for i, w := range writers {
 		if i > 0 {
